@@ -20,7 +20,7 @@ body_reframed enum_reframed rf_vec_dec rf_int_dec rf_text_dec rf_bytes_dec rf_so
 fieldsDec_arrN fieldsDec_arrI fieldsDec_mapN fieldsDec_mapI arrLoopN_X arrLoopI_X mapLoopN_E mapLoopI_E
 startNB_encW startOk_encW skip_emptyW readerVals_self
 body_pref rfVars_pref snd_body snd_vars spec_valid""".split()]
-PACKAGES = ["dgen"]
+PACKAGES = ["dgen", "hcore"]
 on_build_failure = base.on_build_failure
 def prepare(seed, tier):
     base.prepare(seed, tier)
@@ -175,12 +175,17 @@ def streams(rng, tier):
             mk("derive-reframed-enum-wrapper", rw, "re-framings in which the two-element wrapper [variant index, body] of every (non index_only) enum is an "
                "indefinite-length array: the value must come back (former finding K8, repaired in /repo)")]
     yield base.attr_stream(tier, "decode")
+    from verifkit import dextra
+    yield dextra.stream(rng, tier)
 
 
 def replay_streams(rp):
     """re-create the stream the op came from (the oracle lives in the stream's closure) and keep only that op."""
     import random
     op = rp["original_op"] if "original_op" in rp else rp["op"]
+    if op.startswith("dextra"):
+        from verifkit import dextra
+        return [dextra.replay(rp)]
     tier = "thorough" if rp.get("tier") == "thorough" else "quick"
     for t in (tier, "thorough" if tier == "quick" else "quick"):
         for st in streams(random.Random(base.seed_now()), t):
